@@ -15,6 +15,8 @@ CONFIGS = {
     "assert": {"features": ["glam-assert"]},
     "assert-scalar": {"features": ["glam-assert", "scalar-math"]},
     "assert-libm": {"features": ["glam-assert", "libm"]},
+    "cuda": {"features": ["cuda"]},
+    "cuda-scalar": {"features": ["cuda", "scalar-math"]},
     "asan": {"toolchain": "nightly", "rustflags": "-Zsanitizer=address -Cforce-frame-pointers=yes", "target": X86},
     "asan-coresimd": {"toolchain": "nightly", "rustflags": "-Zsanitizer=address -Cforce-frame-pointers=yes", "target": X86, "features": ["core-simd"]},
     "miri-sse2": {"toolchain": "nightly", "kind": "miri"},
@@ -43,7 +45,7 @@ PLAN = {
     "C03": lanes("C03", ["sse2", "scalar", "coresimd"], ["fma"], engine="e_geom"),
     "C04": lanes("C04", ["sse2", "scalar", "coresimd"], ["fma"], engine="e_geom"),
     "C05": lanes("C05", ["sse2", "scalar", "coresimd"], [], engine="e_geom"),
-    "C06": lanes("C06", ["sse2", "scalar", "coresimd"], [], engine="e_geom"),
+    "C06": lanes("C06", ["sse2", "scalar", "coresimd"], ["cuda", "cuda-scalar"], engine="e_geom"),
     "C09": lanes("C09", ["sse2", "scalar", "coresimd", "libm", "assert"], ["assert-scalar"], engine="e_geom"),
     "C10": lanes("C10", ["sse2", "scalar", "coresimd", "assert"], ["assert-scalar"], engine="e_geom"),
     "C11": lanes("C11", ["sse2", "scalar", "coresimd", "assert"], ["assert-scalar"], engine="e_geom"),
@@ -65,7 +67,7 @@ PLAN = {
     ], "not_observed": ["neon", "wasm32", "scalar-math (no hidden lane exists there)"]},
     "C19": {"runs": [
         {"engine": "e_interop", "config": c, "tiers": t, "shards": {"quick": 1, "thorough": 1}, "args": ["--trace", "{wdir}/json.{config}.txt"]}
-        for c, t in (("sse2", Q), ("scalar", Q), ("coresimd", T))
+        for c, t in (("sse2", Q), ("scalar", Q), ("coresimd", T), ("cuda", T), ("cuda-scalar", T))
     ] + [
         {"engine": "e_interop", "config": "miri-sse2", "mode": "miri", "tiers": Q, "shards": {"quick": 8, "thorough": 8}},
         {"engine": "e_interop", "config": "miri-scalar", "mode": "miri", "tiers": T, "shards": {"quick": 8, "thorough": 8}},
@@ -104,7 +106,7 @@ PLAN = {
     "C14": lanes("C14", ["sse2", "scalar"], ["coresimd"]),
     "C15": lanes("C15", ["sse2", "scalar", "coresimd"], []),
     "C16": lanes("C16", ["sse2", "scalar", "coresimd"], []),
-    "C17": lanes("C17", ["sse2", "scalar", "coresimd"], []),
+    "C17": lanes("C17", ["sse2", "scalar", "coresimd"], ["cuda", "cuda-scalar"]),
 }
 for _p in ("C13",):
     for _r in PLAN[_p]["runs"]:
